@@ -243,6 +243,13 @@ theorem step_inv (sem : Nat → List Int → Int) (v : InVal) (A A' : Abs) (c : 
       · simp [step, upd, Ne.symm he, h.obj0buf]
       · intro a' ha'; simp only [step, upd, Ne.symm he, if_false]; exact h.obj0 a' ha'
 
+  | inplaceAttr op t a =>
+    simp only [checkStep, Option.some.injEq] at hc; subst hc
+    exact h
+  | copyAttr t a =>
+    simp only [checkStep, Option.some.injEq] at hc; subst hc
+    exact h
+
 /-- A whole instruction list accepted by the checker preserves the invariant. -/
 theorem exec_inv (sem : Nat → List Int → Int) (v : InVal) (p : List Instr) :
     ∀ (A A' : Abs) (c : St), Inv v A c → check p A = some A' → Inv v A' (exec sem c p) := by
@@ -280,14 +287,35 @@ theorem evalI_congr (S : ISem) (allowed : List Atom) (e : IExpr) (h : closedOver
     simp only [closedOver, Bool.and_eq_true] at h
     simp [evalI, iha h.1, ihb h.2]
 
-/-- Every filled memo cell holds its specification evaluated at some environment that has the
-stored tag as key. -/
-def MemoInv (S : ISem) (p : IProg) (cells : Nat → Option (List Int × Int)) : Prop :=
-  ∀ c tag val, cells c = some (tag, val) →
+/-- Every entry of every memo cell holds the cell's specification evaluated at some environment that
+has the entry's tag as key. -/
+def MemoInv (S : ISem) (p : IProg) (cells : Nat → Entries) : Prop :=
+  ∀ c tag val, (tag, val) ∈ cells c →
     ∃ ρ' : Atom → Int, (p.keyAtoms c).map ρ' = tag ∧ val = evalI S ρ' 0 (fun _ => 0) (p.spec c)
 
-theorem memoInv_fresh (S : ISem) (p : IProg) : MemoInv S p (fun _ => none) := by
+theorem memoInv_fresh (S : ISem) (p : IProg) : MemoInv S p (fun _ => []) := by
   intro c tag val h; simp at h
+
+theorem lookup_some_mem {tag : List Int} {l : Entries} {v : Int} (h : lookup tag l = some v) : (tag, v) ∈ l := by
+  induction l with
+  | nil => simp [lookup] at h
+  | cons e rest ih =>
+    obtain ⟨t, w⟩ := e
+    simp only [lookup] at h
+    split at h
+    · rename_i ht; simp only [Option.some.injEq] at h; subst h; subst ht; simp
+    · exact List.mem_cons_of_mem _ (ih h)
+
+theorem lookup_cons_self (tag : List Int) (v : Int) (l : Entries) : lookup tag ((tag, v) :: l) = some v := by
+  simp [lookup]
+
+theorem mem_insertEntry {cap : Nat} {tag : List Int} {v : Int} {l : Entries} {e : List Int × Int}
+    (h : e ∈ insertEntry cap tag v l) : e = (tag, v) ∨ e ∈ l := by
+  have h1 := List.mem_of_mem_take h
+  simp only [List.mem_cons, List.mem_filter] at h1
+  rcases h1 with h1 | h1
+  · exact Or.inl h1
+  · exact Or.inr h1.1
 
 /-- Under the invariant a keyed read yields the specification at the *current* key, hit or miss. -/
 theorem stepI_memoRead (S : ISem) (p : IProg) (ρ : Atom → Int) (fld : Int) (c : IRun) (r k : Nat)
@@ -295,19 +323,13 @@ theorem stepI_memoRead (S : ISem) (p : IProg) (ρ : Atom → Int) (fld : Int) (c
     stepI S p ρ fld c (.memoRead r k (p.spec k))
       = { c with loc := upd c.loc r (evalI S ρ fld c.loc (p.spec k)) } := by
   simp only [stepI]
-  cases hc : c.cells k with
+  cases hc : lookup ((p.keyAtoms k).map ρ) (c.cells k) with
   | none => rfl
-  | some tv =>
-    obtain ⟨tag, val⟩ := tv
+  | some val =>
     simp only
-    split
-    · rename_i htag
-      obtain ⟨ρ', hmap, hval⟩ := hinv k tag val hc
-      have hagree : ∀ a ∈ p.keyAtoms k, ρ' a = ρ a := by
-        have := hmap.trans htag
-        exact List.map_inj_left.mp this
-      rw [hval, evalI_congr S (p.keyAtoms k) (p.spec k) hcl ρ' ρ hagree 0 fld (fun _ => 0) c.loc]
-    · rfl
+    obtain ⟨ρ', hmap, hval⟩ := hinv k _ val (lookup_some_mem hc)
+    have hagree : ∀ a ∈ p.keyAtoms k, ρ' a = ρ a := List.map_inj_left.mp hmap
+    rw [hval, evalI_congr S (p.keyAtoms k) (p.spec k) hcl ρ' ρ hagree 0 fld (fun _ => 0) c.loc]
 
 /-- Two runs of an accepted body from stores that both satisfy the invariant, with equal locals and
 equal contents of the scratch buffers written so far, end with equal locals, and both stores still
@@ -342,10 +364,12 @@ theorem sim (S : ISem) (p : IProg) (ρ : Atom → Int) (fld : Int) (body : List 
         split at hcell
         · rename_i hk
           subst hk
-          simp only [Option.some.injEq, Prod.mk.injEq] at hcell
-          refine ⟨ρ, hcell.1, ?_⟩
-          rw [← hcell.2]
-          exact evalI_congr S (p.keyAtoms k') (p.spec k') hcl ρ ρ (fun _ _ => rfl) fld 0 c.loc (fun _ => 0)
+          rcases mem_insertEntry hcell with hnew | hold
+          · simp only [Prod.mk.injEq] at hnew
+            refine ⟨ρ, hnew.1.symm, ?_⟩
+            rw [hnew.2]
+            exact evalI_congr S (p.keyAtoms k') (p.spec k') hcl ρ ρ (fun _ _ => rfl) fld 0 c.loc (fun _ => 0)
+          · exact hc k' tag val hold
         · exact hc k' tag val hcell
       apply ih w _ _ hrest
       · simpa [stepI] using hl
@@ -414,5 +438,114 @@ theorem callI_result_eq (S : ISem) (p : IProg) (hs : safeInternal p = true) (E1 
     ⟨E2.cells, E2.scratch, fun _ => 0⟩ hs rfl (fun _ h => by simp at h) h1 h2
   simp only [callI, ← hp]
   rw [this.1]
+
+
+/-! ## Programs with a loop -/
+
+theorem check_append (p q : List Instr) (A : Abs) :
+    check (p ++ q) A = (check p A).bind (check q) := by
+  induction p generalizing A with
+  | nil => rfl
+  | cons i p ih =>
+    simp only [List.cons_append, check]
+    cases checkStep A i with
+    | none => rfl
+    | some A' => exact ih A'
+
+theorem rounds_succ (n : Nat) (b : List Instr) : rounds (n + 1) b = b ++ rounds n b := by
+  simp [rounds, List.replicate_succ]
+
+theorem check_rounds (body : List Instr) (A : Abs) (h : check body A = some A) :
+    ∀ n, check (rounds n body) A = some A := by
+  intro n
+  induction n with
+  | zero => rfl
+  | succ n ih => rw [rounds_succ, check_append, h]; exact ih
+
+theorem unroll_succ_body (L : LoopProg) (k : Nat) :
+    (L.unroll (k + 1)).body = (L.pre ++ L.body) ++ (rounds k L.body ++ L.post) := by
+  simp [LoopProg.unroll, rounds_succ, List.append_assoc]
+
+theorem loop_safe (L : LoopProg) (h0 : safe (L.unroll 0) = true) (h1 : safe (L.unroll 1) = true) (hf : L.Fix) :
+    ∀ n, safe (L.unroll n) = true := by
+  intro n
+  cases n with
+  | zero => exact h0
+  | succ m =>
+    -- one round does not fail
+    have hsome : ∃ A, check (L.pre ++ L.body) Abs.init = some A := by
+      cases hc : check (L.pre ++ L.body) Abs.init with
+      | some A => exact ⟨A, rfl⟩
+      | none =>
+        exfalso
+        have : check (L.unroll 1).body Abs.init = none := by
+          rw [unroll_succ_body, check_append, hc]; rfl
+        simp [safe, this] at h1
+    obtain ⟨A, hA⟩ := hsome
+    have hst : stateAfter (L.pre ++ L.body) = A := by simp [stateAfter, hA]
+    have hfA : check L.body A = some A := by rw [LoopProg.Fix, hst] at hf; exact hf
+    have body_eq : ∀ k, check (L.unroll (k + 1)).body Abs.init = check L.post A := by
+      intro k
+      rw [unroll_succ_body, check_append, hA]
+      simp only [Option.bind]
+      rw [check_append, check_rounds L.body A hfA k]
+      rfl
+    have e1 := body_eq 0
+    have em := body_eq m
+    unfold safe at h1 ⊢
+    rw [em]; rw [e1] at h1; exact h1
+
+theorem viewList_append (a : Attr) (p q : List Instr) :
+    viewList a (p ++ q) = match viewList a p, viewList a q with
+      | some x, some y => some (x ++ y)
+      | _, _ => none := by
+  induction p with
+  | nil => simp [viewList]; cases viewList a q <;> rfl
+  | cons i p ih =>
+    simp only [List.cons_append, viewList, ih]
+    cases viewInstr a i <;> cases viewList a p <;> cases viewList a q <;> simp
+
+theorem viewList_rounds (a : Attr) (b vb : List Instr) (h : viewList a b = some vb) :
+    ∀ n, viewList a (rounds n b) = some (rounds n vb) := by
+  intro n
+  induction n with
+  | zero => rfl
+  | succ n ih => rw [rounds_succ, rounds_succ, viewList_append, h, ih]
+
+theorem viewProg_unroll (a : Attr) (L L' : LoopProg) (h : L.view a = some L') (n : Nat) :
+    viewProg a (L.unroll n) = some (L'.unroll n) := by
+  unfold LoopProg.view at h
+  cases hp : viewList a L.pre with
+  | none => simp [hp] at h
+  | some vp =>
+    cases hb : viewList a L.body with
+    | none => simp [hp, hb] at h
+    | some vb =>
+      cases hq : viewList a L.post with
+      | none => simp [hp, hb, hq] at h
+      | some vq =>
+        simp only [hp, hb, hq, Option.some.injEq] at h
+        subst h
+        simp [viewProg, LoopProg.unroll, viewList_append, hp, hq, viewList_rounds a _ _ hb n]
+
+
+
+theorem loop_safeAttr (a : Attr) (L : LoopProg) (hf : L.FixAll)
+    (hb : (match L.view a with | some L' => L'.base | none => false) = true) (n : Nat) :
+    safeAttr a (L.unroll n) = true := by
+  cases hv : L.view a with
+  | none => simp [hv] at hb
+  | some L' =>
+    simp only [hv, LoopProg.base, Bool.and_eq_true] at hb
+    simp only [safeAttr, viewProg_unroll a L L' hv n]
+    exact loop_safe L' hb.1 hb.2 (hf.2 a L' hv) n
+
+theorem loop_safeAll (L : LoopProg) (hb : L.baseAll = true) (hf : L.FixAll) (n : Nat) :
+    safeAll (L.unroll n) = true := by
+  simp only [LoopProg.baseAll, List.all_cons, List.all_nil, Bool.and_true, Bool.and_eq_true, LoopProg.base] at hb
+  obtain ⟨⟨h0, h1⟩, hg, hs⟩ := hb
+  simp only [safeAll, Bool.and_eq_true]
+  exact ⟨⟨loop_safe L h0 h1 hf.1 n, loop_safeAttr .grid L hf hg n⟩, loop_safeAttr .stokes L hf hs n⟩
+
 
 end HcipyVerif.Effects
